@@ -7,6 +7,7 @@ import J5V.Pipe.Flatten
 import J5V.Pipe.ListRequest
 import J5V.Pipe.Client
 import J5V.Pipe.Entity
+import J5V.Pipe.SwaggerDoc
 /-! Line-protocol driver for the pipe cluster (C16), core only. One op per input line, one result
 per output line; see `/verif/harness/PROTOCOL-pipe.md`.
 
@@ -568,8 +569,39 @@ def chainLine (sp : TSpec) : S :=
     else acc ++ [tname t.name ++ "=" ++ mname t.name]) []
   let entTopics : List S := sp.entities.map fun e =>
     tname (camel e.name ++ "Publish") ++ "=" ++ mname (camel e.name ++ "Event")
+  -- the OpenAPI document (`Pipe/SwaggerDoc.lean`): the model's client API of the declared services
+  -- (+ the entities' roots for the schema map) through `buildSwagger`
+  let svcIns : List ServiceIn := sp.services.filterMap fun sv =>
+    match declOf sv with
+    | none => none
+    | some d =>
+      match chainService pkgSub d with
+      | .ok cs =>
+        some { name := cs.name, methods := (sv.methods.zip cs.methods).map fun (tm, cm) =>
+          { name := cm.name, verb := cm.verb, path := cm.path,
+            req := tm.req.map (propOf nodes "service." (tm.name ++ "Request")),
+            resp := if tm.hasResp then some (tm.resp.map (propOf nodes "service." (tm.name ++ "Response"))) else none } }
+      | _ => none
+  let keyOf (i : Nat) : Option S := (nodes[i]?).bind fun n => if n.key.startsWith "@" then none else some n.key
+  let refText (rs : List Nat) : S := csv (sortStrings (rs.filterMap keyOf).eraseDups) "-"
+  let wText : S :=
+    match buildClient g svcIns roots.entities with
+    | some (.ok api) =>
+      match buildSwagger api with
+      | .ok doc =>
+        let opText (o : DOperation) : S :=
+          o.verb.lower ++ ":" ++ toHexW o.path
+            ++ ":P=" ++ csv (o.params.map fun p => ofStr p.name ++ "@" ++ (match p.loc with | .path => "path" | .query => "query")) "-"
+            ++ ":B=" ++ (match o.body with
+                | none => "~"
+                | some b => csv (sortStrings (b.map fun x => ofStr x.1).eraseDups) "-")
+            ++ ":R=" ++ (if o.response.isSome then "1" else "0") ++ ":F=" ++ refText o.refs
+        "W:" ++ (if doc.paths.isEmpty then "-" else "|".intercalate (doc.paths.map fun item => ";".intercalate (item.map opText)))
+          ++ " X:" ++ refText ((doc.components.filter fun c => (keyOf c.1).isSome).flatMap fun c => propRefs c.2)
+      | _ => "W:model-err"
+    | _ => "W:client-model-err"
   "ok S" ++ toString sp.services.length ++ String.join (svcOuts.map fun o => " " ++ lineOf o) ++ entText
-    ++ " K:" ++ keys ++ " T:" ++ csv (topics ++ entTopics) "-"
+    ++ " K:" ++ keys ++ " T:" ++ csv (topics ++ entTopics) "-" ++ " " ++ wText
 
 /-! ## kernel ops -/
 
